@@ -2,11 +2,16 @@
 //
 // Part 1 (decoder.go, worker.go): bounded exhaustive enumeration of frame sequences given to a fresh parser,
 // each finished packet decoded against the handler signature families; oracle = packet or error, never a
-// panic, a hang or a wedged parser. Part 2 (process.go): a representative of every outcome class is sent to a
-// live server over rig R1 under the controlled scheduler.
+// panic, a hang or a wedged parser. Part 2 (process.go, client.go): a representative of every outcome class
+// is sent to a live server over rig R1 - and a selection to a live Go client over rig R3 - under the
+// controlled scheduler.
 //
 // The decoder half runs first (in the coordinator, before vx.Main): if it finds an input on which the
 // decoder hangs, the process half is skipped (it would only stall the scheduler's watchdog).
+//
+// Files: decoder.go (case space, guarded calls, classification), worker.go (worker subprocesses, watchdog),
+// process.go (server scenarios), client.go (client scenarios), reps_gen.go (generated table of class
+// representatives; refresh with `vcheck run c10 -c10printreps > harness/c10/reps_gen.go`), gen.go.
 package main
 
 import (
@@ -36,12 +41,12 @@ func tierArg() string {
 
 func decoderBudget(tier string) time.Duration {
 	if tier == "thorough" {
-		return 8 * time.Minute
+		return 6 * time.Minute
 	}
-	return 50 * time.Second
+	return 45 * time.Second
 }
 
-// replayDecoder re-evaluates the first frame recorded in a decoder replay file.
+// replayDecoder re-evaluates the first frame recorded in a decoder replay file (false: not such a file).
 func replayDecoder(path string) bool {
 	b, err := os.ReadFile(path)
 	if err != nil {
@@ -109,19 +114,19 @@ func main() {
 		Rule: "decoder half: every string over the 18 protocol-significant bytes `" + alphabet + "` up to length 5 (quick) / 6 (thorough), plus templates (attachment counts, placeholder num values at top level / in a map / in a struct field / nested / in arrays, " +
 			"every truncation of valid packets, 20-25 digit ack ids, packet types 3,4,7-9 and header shapes the alphabet cannot spell), each as the first frame of a fresh parser; a packet that asks for attachments is completed with every combination of {binary, text} frames up to 2 " +
 			"and, with maxAttachments=2, must be refused or complete within 2 frames; every finished packet is decoded against 5 handler signature families (sio.Binary, map[string]any, any, struct with a Binary field, no args; CONNECT also *json.RawMessage) through one decode closure. " +
-			"An evaluation is one (frame sequence, family) pair or one frame sequence that yields no packet. distinct_nontrivial = distinct first frames that got past the first-byte check (decoded, asked for attachments, or failed later) + deviating schedules of the process half. " +
-			"process half: one representative per outcome class sent to a live sio.Server over a harness-implemented eio socket, all schedules with at most 1 deviation",
+			"An evaluation is one (frame sequence, family) pair or one frame sequence that yields no packet, or one execution of the process half. distinct_nontrivial = distinct first frames that got past the first-byte check (decoded, asked for attachments, or failed later) + deviating schedules of the process half. " +
+			"process half: the shortest input of every decoder outcome class plus hand-picked inputs, sent to a live sio.Server over a harness-implemented eio socket (ACKs also with a matching outstanding emit per callback family, CONNECTs also as first packet), and a selection sent by a live server to a live Go client over the in-process polling link; all schedules with at most 1 (quick) / 2 (thorough, server side) deviations",
 		Scenarios: scenarios,
 		Budget: func(tier string) time.Duration {
 			if tier == "thorough" {
-				return 3 * time.Minute
+				return 5 * time.Minute
 			}
-			return 60 * time.Second
+			return 40 * time.Second
 		},
 		Assumptions: []string{
 			"stdjson serializer (the server's default); maxAttachments 0 (default) and 2",
 			"the parser sees only bytes: a 'binary' attachment is a non-UTF-8 byte string, a 'text' attachment is a well-formed Socket.IO text packet",
-			"process half: vsched semantics of Go primitives; a panic on a modelled thread ends that thread only (in production it ends the process unless a caller recovers)",
+			"process half: vsched semantics of Go primitives; a panic on a modelled thread ends that thread only (in production it ends the process unless a caller recovers); the harness lets the server settle after every CONNECT before the next frame",
 			"a hang is 'no result for one input within 10 s, twice, in a process of its own'",
 		},
 		Extra: func(tier string, r *vx.Report) {
@@ -154,25 +159,30 @@ func mergeDecoder(r *vx.Report, d *decoderRun) {
 		classes[k] = map[string]any{"count": c.Count, "shortest": showFramesShort(c.Ex.Frames)}
 	}
 	r.Extra["decoder"] = map[string]any{
-		"max_length":                     d.cs.L,
-		"alphabet":                       alphabet,
-		"enumerated_strings":             d.cs.nStr,
-		"templates":                      len(d.cs.tmpl),
-		"first_frames":                   st.Inputs,
-		"first_frames_past_first_byte":   st.Nontrivial,
+		"max_length":                          d.cs.L,
+		"alphabet":                            alphabet,
+		"enumerated_strings":                  d.cs.nStr,
+		"templates":                           len(d.cs.tmpl),
+		"first_frames":                        st.Inputs,
+		"first_frames_past_first_byte":        st.Nontrivial,
 		"first_frames_asking_for_attachments": st.Pending,
-		"frame_sequences":                st.Sequences,
-		"packets_finished":               st.Finished,
-		"decode_calls":                   st.Decodes,
-		"evaluations":                    st.Evaluations,
-		"outcome_classes":                len(st.Classes),
-		"outcome_classes_per_family_detail": len(st.Fine),
-		"worker_processes":               d.procs,
-		"batches":                        d.batches,
-		"wall_s":                         d.wall.Seconds(),
+		"frame_sequences":                     st.Sequences,
+		"packets_finished":                    st.Finished,
+		"decode_calls":                        st.Decodes,
+		"evaluations":                         st.Evaluations,
+		"outcome_classes":                     len(st.Classes),
+		"outcome_classes_per_family_detail":   len(st.Fine),
+		"worker_processes":                    d.procs,
+		"batches":                             d.batches,
+		"wall_s":                              d.wall.Seconds(),
 	}
 	r.Extra["decoder_classes"] = classes
-	r.Extra["process"] = map[string]any{"executions": procEvals, "deviating_schedules": procNontriv, "representatives": len(representatives())}
+	nvar := 0
+	if !skipProcessHalf() {
+		nvar = len(variants())
+	}
+	r.Extra["process"] = map[string]any{"executions": procEvals, "deviating_schedules": procNontriv, "representatives": len(representatives()),
+		"server_scenarios": nvar, "client_scenarios": len(clientReps())}
 	// every outcome class of the decoder half needs a representative in the process half (the
 	// representatives' first frames are part of the case space, so they are known to terminate here)
 	if !skipProcessHalf() {
@@ -196,16 +206,19 @@ func mergeDecoder(r *vx.Report, d *decoderRun) {
 			r.CapsHit = append(r.CapsHit, fmt.Sprintf("process half: %d decoder outcome classes have no representative (listed in the evidence)", len(missing)))
 		}
 	}
-	// samples: a few written-out cases
-	n := 0
+	// samples: a few written-out decoder cases in front of the scenario schedules vx.Main recorded
+	var ds []any
 	for _, k := range sortedKeys(st.Classes) {
-		if n >= 3 {
+		if len(ds) >= 3 {
 			break
 		}
-		if strings.Contains(k, "decode:") {
-			r.Sample(map[string]any{"frames": showFramesShort(st.Classes[k].Ex.Frames), "outcome": k})
-			n++
+		if strings.Contains(k, "attachment decode: error for some") || strings.Contains(k, "EVENT decode: ok") {
+			ds = append(ds, map[string]any{"frames": showFramesShort(st.Classes[k].Ex.Frames), "outcome_class": k, "inputs_in_class": st.Classes[k].Count})
 		}
+	}
+	r.Samples = append(ds, r.Samples...)
+	if len(r.Samples) > 6 {
+		r.Samples = r.Samples[:6]
 	}
 	for _, k := range sortedKeys(st.Violations) {
 		v := st.Violations[k]
